@@ -229,7 +229,8 @@ def run(ctx, pid="C02"):
         def ids_of_d(t, fn=fn):
             r = fn(t)
             return {int(x) for x in r.split()[1:]} if r.startswith("ids") else r
-        v, tl = sm.judge_dates(ctx, ids_of_d, drows)
+        # KNOWN FINDING C03-date-cast-sqlite: date(x) is CAST(x AS DATE), which SQLite evaluates with numeric affinity
+        v, tl = sm.judge_dates(ctx, ids_of_d, drows, kf=(lambda t: t.startswith("date(dt1)")) if pid == "C03" else None)
         dviol += [(t, None, row, f"[{sname}] {why}") for t, row, why in v]
         dtally_all.update(tl)
     ctx.extra["judged_dates"] = dict(dtally_all)
@@ -256,6 +257,8 @@ def run(ctx, pid="C02"):
         return found
 
     def known_replay(f):
+        if f.get("stream") == "date":
+            return dtally_all.get("under-known-finding", 0) > 0
         rows = [dict({"id": 1, "i1": None, "i2": None, "s1": None, "s2": None, "b1": None}, **f.get("row", {}))]
         load_rows(rows)
         r = styles[0][1](f["source_text"])
